@@ -132,6 +132,7 @@ class ArithmeticMean(_MeanAxisOb):
 
 class LinearMean(_MeanAxisOb):
     name = 'linearMean/spec'
+    props = ('C11', 'C02')
     fn = 'linearMean'
     data_kind = None
 
